@@ -66,7 +66,7 @@ def run_shard(shard, ctx, tier):
             guarded_check(mod, {'filter': list(margins)}, ctx)
         return
     if shard.get('kind') == 'e2e':
-        texts = [''.join(p) for n in range(1, 4) for p in itertools.product('ab ', repeat=n)]
+        texts = [''.join(p) for n in range(0, 4) for p in itertools.product('ab ', repeat=n)]      # incl. a line that decodes to ''
         for t1 in texts:
             for t2 in ('ab', 'b a'):
                 guarded_check(mod, {'e2e': [t1, t2]}, ctx)
@@ -326,6 +326,29 @@ def check_e2e(case, ctx):
         if [w for t in t1 for w in t.split()] != w1:
             ctx.violation('rebuilt-layout-exports-same-alto', f'{ID}/e2e/alto-words-not-the-transcription', f'{desc}: {t1} vs {w1}')
             return
+        # history: the saved logits are loaded into a layout object that has ALREADY been decoded and exported with other logits on the
+        # same line ids (a second engine's, here: the lines' matrices swapped); every consumer must then see the loaded ones
+        if len(texts) == 2 and texts[0] != texts[1]:
+            used = copy.deepcopy(page)
+            la, lb = list(used.lines_iterator())
+            la.logits, lb.logits = lb.logits, la.logits
+            la.logit_coords, lb.logit_coords = lb.logit_coords, la.logit_coords
+            PageDecoder(mk()).process_page(used)
+            used.to_altoxml_string()
+            swapped = [l.transcription for l in used.lines_iterator()]
+            used.load_logits(blob)
+            PageDecoder(mk()).process_page(used)
+            alto3 = used.to_altoxml_string()
+            ctx.executed(5)
+            t3 = [l.transcription for l in used.lines_iterator()]
+            w3 = re.findall(r'CONTENT="([^"]*)"', alto3)
+            if t3 != t1 or w3 != w1:
+                ctx.violation('rebuilt-layout-redecodes-identically', f'{ID}/e2e/logits-loaded-into-a-used-layout-are-not-used/{name}',
+                              f'{desc}: a layout decoded to {swapped} with other logits, then load_logits() of the saved ones: re-decoded {t3} '
+                              f'(ALTO words {w3}), expected {t1}')
+                return
+            if swapped != t1:
+                ctx.tag('logits-loaded-into-a-used-layout')
         ctx.outcome(('e2e', tuple(t1)))
         if t1 == [' '.join(t.split()) if False else t for t in texts]:
             ctx.tag('e2e-decoded-the-painted-text')
@@ -397,5 +420,5 @@ def describe(tier):
         'bounds': BOUNDS[tier],
         'alphabets': {'matrices': MATS, 'charsets': CHARSETS, 'windows': WINDOWS},
         'assumptions': ['no stored entry is exactly 0.0 (precondition of the format)', 'line ids never equal the table keys'],
-        'min_nontrivial': 100, 'required_tags': ['multi-line-pages', 'missing-component-cases', 'end-to-end-pages', 'filter-splits-the-page'],
+        'min_nontrivial': 100, 'required_tags': ['multi-line-pages', 'missing-component-cases', 'end-to-end-pages', 'filter-splits-the-page', 'logits-loaded-into-a-used-layout'],
     }
